@@ -3,6 +3,7 @@ import L21.Model.LefLex
 import L21.Model.LefEnum
 import L21.Model.Lef
 import L21.Model.LefWrite
+import L21.Model.LefState
 /- Line-protocol glue for the LEF lexer and keyword models. -/
 namespace L21.Driver
 open L21 Sexp
@@ -22,6 +23,22 @@ def opLefLex (args : List Sexp) : String :=
     | none => "bad-op"
     | some cs => match LefLex.lex LefLex.isWsUnicode cs with
       | .ok ts => s!"ok {Sexp.list (ts.map fun t => Sexp.list [.atom (ttName t.ttype), ofNat t.start, ofNat t.stop])}"
+      | .err => "err"
+  | _ => "bad-op"
+
+def charsBytes (cs : List Char) : Sexp :=
+  ofBytes ((String.ofList cs).toUTF8.toList.map (·.toNat))
+
+/-- `lef.states`: the error report at every parser position -/
+def opLefStates (args : List Sexp) : String :=
+  match args with
+  | [a] => match utf8Text? a with
+    | none => "bad-op"
+    | some cs => match LefLex.reports LefLex.isWsUnicode cs with
+      | .ok rs =>
+        if rs.any (·.isNone) then "panic" else
+        s!"ok {Sexp.list (rs.filterMap fun r => r.map fun (r : LefLex.Report) =>
+          Sexp.list [charsBytes r.lineContent, ofNat r.lineNum, charsBytes r.token, ofNat r.pos])}"
       | .err => "err"
   | _ => "bad-op"
 
